@@ -14,10 +14,10 @@ LEVEL_TEXT = ("Repository-specific static rules over the type-checked SSA form o
 # id -> (decides, note, technique); ids missing here are listed under not_applicable with NA[id]
 TRUST = "Trusted: go/types, go/ssa (x/tools v0.29.0), the Go memory model and the documented semantics of the standard library; lock, field and channel identity is by (type, field), instances are not distinguished; hand-confirmed instance minimums and idiom tables in /verif/checker/rules_*.go. A re-architecture of the anchored mechanism that uses an idiom the rule does not know is reported as undecided (the check fails rather than pass on code it does not understand). "
 CLAIMS = {
- "C02": ("reader hand-off channels are buffered at every make site; waiter registered before the write; the wait prefers a delivered reply over the close notification; reader re-arms the read deadline; no exit between write and wait; single waiter slot cleared only by the reader; the frame reader reads only through io.ReadFull; the waiter is registered under the widened 16-bit wire id the reader looks up; every exchange-path function passes on and waits on its own context. Also: reply channels are consumed only by their exchange, which returns what it received; waiters are removed only by deferred calls. Not decided: timing.",
+ "C02": ("reader hand-off channels are buffered at every make site; waiter registered before the write; the wait prefers a delivered reply over the close notification; reader re-arms the read deadline; no exit between write and wait; single waiter slot cleared only by the reader; the frame reader reads only through io.ReadFull; the waiter is registered under the widened 16-bit wire id the reader looks up; every exchange-path function passes on and waits on its own context. Also: reply channels are consumed only by their exchange, which returns what it received; waiters are removed only by deferred calls. The datagram reader offers the whole buffer to every read; the reader may remove a waiter only together with delivering its reply (D13). Not decided: timing.",
          TRUST + "Go channel semantics (a send on a channel with free buffer space never blocks).",
          "SSA value-provenance of channel make sites + dominance / must-pass-through on the CFG"),
- "C04": ("the cache key builder is injective in (AD, CD, DO, 16 type bits, 16 class bits, name): every input bit is the sole dependency of a header bit, the name is copied verbatim, the buffer is fresh and private; non-empty key only for QR=0/QUERY/one question; one key value for lookup and stores. Also: no access to key bytes through sub-slices; the empty key never reaches the backend; no slicing of the key; the dump loader stores under the dumped key. The lazy refresh runs on a context copy taken before the live context moves on. This is the whole property except the semantics of miekg/dns field accessors.",
+ "C04": ("the cache key builder is injective in (AD, CD, DO, 16 type bits, 16 class bits, name): every input bit is the sole dependency of a header bit, the name is copied verbatim, the buffer is fresh and private; non-empty key only for QR=0/QUERY/one question; one key value for lookup and stores. Also: no access to key bytes through sub-slices; the empty key never reaches the backend; no slicing of the key; the dump loader stores under the dumped key. The lazy refresh runs on a context copy taken before the live context moves on. Dump entries pair each key with that entry's own answer bytes. This is the whole property except the semantics of miekg/dns field accessors.",
          TRUST + "miekg/dns Msg.IsEdns0 / OPT.Do as documented; Go string map-key equality.",
          "bit-level dependency abstract interpretation of the key builder (SSA) + guard and provenance rules"),
  "C09": ("lockset on counters, waiter table, flags and connection sets; admission test inside the critical section; exactly-once release and wait-group accounting on every path of both ReservedExchanger implementations; no double counting of in-flight queries; reserved exchangers consumed exactly once by callers; dial only when nothing admitted; dialing limit <= connection limit; a reservation is released only by defer or after its exchange returned; connections change hands only by rendezvous. Also: limit fields come from their options; waiter-table entries and QUIC streams are released on every exit; all ReservedExchanger implementations are known. Not decided: run-time maxima over interleavings.",
@@ -44,10 +44,10 @@ CLAIMS = {
  "C06": ("errors returned unchanged; walkers/nodes immutable after construction; continuation = (index+1, same chain, same jump-back); accept/reject/return/goto/jump call-graph facts; negation and its parsing; short-circuit to the next rule; end-of-chain jump-back. Also: every matcher passes the negation decision; the rule index advances by exactly one; ExecNext returns only matcher/action/continuation results. Not decided: equivalence with a reference interpreter over all programs.",
          TRUST + "plugins honour the Executable contracts.",
          "who-writes index (immutability) + SSA structure rules on the interpreter loop and built-ins"),
- "C07": ("ctx case in every blocking select; close-notification / dial-finished wake-ups; I/O error => close on every path; close-once with error stored first; transport Close (flag, all conns, dials, entry checks, late dials); goroutine termination table (incl. unbuffered hand-offs that must be outlived by their receiver); bounded deadlines incl. the reader not overriding the waiting-reply deadline; dialled-connection typestate; wait-group accounting; lock order; dialFinished closed at most once (site table); read errors end the read helpers. Also: exact arming condition of the waiting-reply deadline and a flag that tracks remaining waiters (D11); the lazy wrapper closes what it holds; no context-less handshake/dial in pkg/upstream. Every tls.Client in pkg/upstream is handshaken under a context before it is handed out; sync.Once is part of the lock order (D12). Not decided: actual timing.",
+ "C07": ("ctx case in every blocking select; close-notification / dial-finished wake-ups; I/O error => close on every path; close-once with error stored first; transport Close (flag, all conns, dials, entry checks, late dials); goroutine termination table (incl. unbuffered hand-offs that must be outlived by their receiver); bounded deadlines incl. the reader not overriding the waiting-reply deadline; dialled-connection typestate; wait-group accounting; lock order; dialFinished closed at most once (site table); read errors end the read helpers. Also: exact arming condition of the waiting-reply deadline and a flag that tracks remaining waiters (D11); the lazy wrapper closes what it holds; no context-less handshake/dial in pkg/upstream. Every tls.Client in pkg/upstream is handshaken under a context before it is handed out; sync.Once is part of the lock order (D12). The waiting flag is exactly len(waiter table) > 0, stored under the table's lock after the answered entry left it (D13); reuse-transport deadlines are bounded constants armed before the write and never touched after it; a Done case reports the error of the context that fired. Not decided: actual timing.",
          TRUST + "net.Conn deadlines interrupt blocked I/O; sync.Once.",
          "select/channel structure analysis + must-pass-through on the CFG + path-enumerating typestate"),
- "C08": ("retry re-entered exactly under {failed, not new, counter below bound[, ctx live]} with no narrowing condition; <= 4 attempts; is-new flag coincides with the dial; dead connections removed when detected / on close; every read/write error closes the connection on every path (all connection kinds); pooled buffers are not re-sent or released twice across the retry (inter-procedural release). Also: the is-new flag is set unconditionally at the dial; failed attempts surface as non-nil errors promptly. Not decided: whether the retry succeeds.",
+ "C08": ("retry re-entered exactly under {failed, not new, counter below bound[, ctx live]} with no narrowing condition; <= 4 attempts; is-new flag coincides with the dial; dead connections removed when detected / on close; every read/write error closes the connection on every path (all connection kinds); pooled buffers are not re-sent or released twice across the retry (inter-procedural release). Also: the is-new flag is set unconditionally at the dial; failed attempts surface as non-nil errors promptly. The retry loop, its dials and attempts run under the caller's own context (no added deadline). Not decided: whether the retry succeeds.",
          TRUST,
          "guard-set analysis of the loop back edge + phi case expansion"),
  "C10": ("stored message only Copy()'d / Pack()'d; only fresh messages stored; deep-copy helper uses dns.Copy into fresh slices of a new message; hit gets the query id before the next chain step; lookup returns copies; refresh on a context copy taken before the goroutine. Also: the stored copy has no other user and is created per store; stores are synchronous. Isolation then holds by construction.",
@@ -56,7 +56,7 @@ CLAIMS = {
  "C17": ("TCP exchange exactly under msgTruncated(UDP reply) with its results returned unchanged; non-truncated reply returned as is with no TCP call reachable; msgTruncated == bit 1 of byte 2; same dial address value; same query; received reply bytes are never written except the id restoration; the TCP transport's idle-set discipline (a connection re-enters the idle set only after its reply was read). Also: both exchanges under the caller's context; whole-origin identity of the dial address; datagram buffer >= 4095. Whole property up to the DNS header layout.",
          TRUST,
          "CFG guard/return-shape rules + expression shape of the TC test"),
- "C03": ("malformed queries rejected first with no reply; packed message = plugins' response or SetReply(query)+SERVFAIL/REFUSED; RA forced; OPT re-attached before UDP truncation, truncation iff UDP with a size proven in [512,65535], pack last; provenance of every SetResponse argument from the query it answers; query question/id only modified on a copy or under a deferred restore; redirect reply fix-up; cache key injective in the question; context copies are deep; after validation every return hands back the pack result; the packer returns a pool buffer of its own holding the message and no pooled buffer is used after release (module-wide). Also: FromUDP is set exactly by the datagram server; the deferred restore writes back the saved original; replies are built from the query of the context they are set on. The restored message is the one that was rewritten; stored cache copies share no slice with the live reply. Not decided: arbitrary plugin compositions, miekg Truncate/Pack semantics, one reply per request at socket level.",
+ "C03": ("malformed queries rejected first with no reply; packed message = plugins' response or SetReply(query)+SERVFAIL/REFUSED; RA forced; OPT re-attached before UDP truncation, truncation iff UDP with a size proven in [512,65535], pack last; provenance of every SetResponse argument from the query it answers; query question/id only modified on a copy or under a deferred restore; redirect reply fix-up; cache key injective in the question; context copies are deep; after validation every return hands back the pack result; the packer returns a pool buffer of its own holding the message and no pooled buffer is used after release (module-wide). Also: FromUDP is set exactly by the datagram server; the deferred restore writes back the saved original; replies are built from the query of the context they are set on. The restored message is the one that was rewritten; stored cache copies share no slice with the live reply. Only five known functions write a message's id/question, SetQuestion only in the bootstrap resolver, one identity-setting call per message and path; dump entries pair each key with its own fresh Pack(). The TCP exchange waits on a reply channel made for it; the datagram buffer is never shortened before a read. Not decided: arbitrary plugin compositions, miekg Truncate/Pack semantics, one reply per request at socket level.",
          TRUST + "dns.Msg.SetReply / Truncate as documented; upstreams echo the question.",
          "guard/dominance rules on the entry handler + inter-procedural value provenance (through channels, fields, calls) + interval analysis"),
  "C12": ("ONLY structural necessary conditions: same normalisation on rule and query side, regexps compiled as written, patterns passed on unchanged, shared label scanner with '.' separator, type dispatch table, lookup precedence, default rule types, deepest-value rule in the trie walk, text-loader line pipeline (recognised clean-up steps, parser runs for every non-empty line, errors reported), the label trie only grows (who-writes table), keyword/regexp lookups consult every rule (no pre-filter). NOT decided: the 'if and only if' over all rule sets and names (trie walk, scanner arithmetic, substring/regexp semantics) — input-quantified algorithmics that no static argument in reach settles.",
